@@ -307,3 +307,41 @@ func H_C08_authenticate_unicode_names() {
 	vCheck(vBytesEq(fWs, refUTF16LE(c02refUpper(ws))) || vBytesEq(fWs, refUTF16LE([]rune(ws))), "authenticate-unicode/workstation-is-the-supplied-text-in-utf16le")
 	vCover("end")
 }
+
+// CHALLENGE with a target information block on both sides of the signed 16-bit limit (the length field is an unsigned
+// 16-bit integer): one AV pair whose value has vlen bytes (first and last symbolic, the rest zero).
+func H_C08_challenge_large() {
+	vlen := vParam("vlen")
+	flags := vU32("flags")
+	server := vBytes("server", 8)
+	tname := vBytes("tname", 4)
+	val := make([]byte, vlen)
+	val[0], val[vlen-1] = vU8("first"), vU8("last")
+	ti := []byte{2, 0, byte(vlen), byte(vlen >> 8)}
+	ti = append(ti, val...)
+	ti = append(ti, 0, 0, 0, 0)
+	n := len(ti)
+	msg := append([]byte{}, []byte("NTLMSSP\x00")...)
+	msg = append(msg, 2, 0, 0, 0)
+	msg = append(msg, 4, 0, 4, 0, 56, 0, 0, 0)
+	msg = append(msg, byte(flags), byte(flags>>8), byte(flags>>16), byte(flags>>24))
+	msg = append(msg, server...)
+	msg = append(msg, 0, 0, 0, 0, 0, 0, 0, 0)
+	msg = append(msg, byte(n), byte(n>>8), byte(n), byte(n>>8), 60, 0, 0, 0)
+	msg = append(msg, 0, 0, 0, 0, 0, 0, 0, 0)
+	msg = append(msg, tname...)
+	msg = append(msg, ti...)
+	c, err := ParseChallengeMessage(msg)
+	vCheck(err == nil, "challenge-large/parses")
+	if err != nil {
+		return
+	}
+	vCheck(vBytesEq(c.TargetName, tname), "challenge-large/target-name")
+	vCheck(len(c.TargetInfo) == n, "challenge-large/target-info-length")
+	if len(c.TargetInfo) == n {
+		vCheck(c.TargetInfo[4] == val[0] && c.TargetInfo[4+vlen-1] == val[vlen-1], "challenge-large/target-info-ends")
+	}
+	pairs, err := ParseTargetInfo(c.TargetInfo)
+	vCheck(err == nil && len(pairs) == 1 && len(pairs[2]) == vlen, "challenge-large/pair-value-length")
+	vCover("end")
+}
